@@ -17,7 +17,7 @@ OUTSIDE = ('callable sizes/alignments other than the 54 listed configurations; m
 
 SIZES = [1, 8, 48, 56, 57, 64, 128, 256, 300]
 ALIGNS = [1, 8, 16, 64, 128, 256]
-QUICK = {(1, 1), (8, 1), (56, 8), (57, 8), (64, 16), (256, 16), (300, 16), (56, 64), (64, 64), (128, 128), (256, 256), (300, 256)}
+QUICK = {(8, 1), (56, 8), (57, 8), (256, 16), (300, 16), (64, 64), (128, 128), (256, 256)}
 RT = {'VF_ADDR_AWARE': 1, 'VF_AA_DYNAMIC': 1}
 
 
@@ -45,7 +45,7 @@ for _a in ALIGNS:
         if (_n, _a) in QUICK:
             INSTANCES.append(_inst(_n, _a, 1, ['quick', 'thorough'], tchain=2))
         else:
-            INSTANCES.append(_inst(_n, _a, 2, ['thorough']))
+            INSTANCES.append(_inst(_n, _a, 1, ['thorough']))
 # deeper / wider variants (thorough only)
 for _n, _a in [(56, 16), (57, 8), (300, 64)]:
     INSTANCES.append(_inst(_n, _a, 3, ['thorough'], '_chain3'))
